@@ -1108,3 +1108,54 @@ Proof.
   - unfold exec_rename in H. repeat wf_step; wf_fin.
   - unfold exec_ping in H. repeat wf_step; wf_fin.
 Qed.
+
+Lemma reply_wf_err_other : reply_wf err_other = true. Proof. reflexivity. Qed.
+Lemma reply_wf_err_wrongtype : reply_wf err_wrongtype = true. Proof. reflexivity. Qed.
+Lemma reply_wf_map_bulk l : forallb reply_wf (map RBulk l) = true.
+Proof. induction l; cbn; auto. Qed.
+Lemma reply_wf_mget (f : bytes -> reply) l : (forall k, reply_wf (f k) = true) -> forallb reply_wf (map f l) = true.
+Proof. intros Hf. induction l; cbn; [reflexivity|rewrite Hf; auto]. Qed.
+
+Ltac rw_fin :=
+  repeat match goal with
+  | |- reply_wf (if ?x then _ else _) = true => destruct x
+  | |- reply_wf (match ?x with _ => _ end) = true => destruct x
+  end; try reflexivity.
+
+Theorem strings_dispatch_reply_wf d now nowms n args hint r d' :
+  strings_dispatch d now nowms n args hint = Some (r, d') -> reply_wf r = true.
+Proof.
+  intros H. unfold strings_dispatch in H.
+  repeat match type of H with
+  | (if ?c then _ else _) = _ => destruct c
+  end; try discriminate H; injection H as H.
+  - unfold exec_set in H. repeat wf_step; rw_fin.
+  - unfold exec_get in H. repeat wf_step; rw_fin.
+  - unfold exec_getrange in H. repeat wf_step; rw_fin.
+  - unfold exec_setrange in H. repeat wf_step; rw_fin.
+  - unfold exec_mget in H. repeat wf_step; rw_fin.
+    all: cbn [reply_wf];
+      change (forallb reply_wf (map (fun k => match db_get d k with Some (VStr b) => RBulk b | _ => RNil end) (b0 :: l0)) = true);
+      apply reply_wf_mget; intros k; rw_fin.
+  - unfold exec_mset in H. repeat wf_step; rw_fin.
+  - unfold exec_setex in H. repeat wf_step; rw_fin.
+  - unfold exec_setnx in H. repeat wf_step; rw_fin.
+  - unfold exec_strlen in H. repeat wf_step; rw_fin.
+  - unfold exec_incr, incr_by in H. repeat wf_step; rw_fin.
+  - unfold exec_decr, incr_by in H. repeat wf_step; rw_fin.
+  - unfold exec_incrby, incr_by in H. repeat wf_step; rw_fin.
+  - unfold exec_decrby, incr_by in H. repeat wf_step; rw_fin.
+  - unfold exec_incrbyfloat, follow_hint in H. repeat wf_step; rw_fin.
+  - unfold exec_append in H. repeat wf_step; rw_fin.
+  - unfold exec_del in H. destruct args as [|a0 [|a1 ar]]; try (injection H as <- <-; reflexivity).
+    destruct (del_keys d (a1 :: ar) 0) as [n0 d1] eqn:D. injection H as <- <-. reflexivity.
+  - unfold exec_exists in H. repeat wf_step; rw_fin.
+  - unfold exec_keys in H. repeat wf_step; rw_fin. cbn [reply_wf]. apply reply_wf_map_bulk.
+  - unfold exec_expire in H. cbv zeta in H. repeat wf_step; rw_fin.
+  - unfold exec_persist in H. repeat wf_step; rw_fin.
+  - unfold exec_ttl in H. repeat wf_step; rw_fin.
+  - unfold exec_type in H. repeat wf_step; rw_fin;
+      match goal with |- context [type_name ?v] => destruct v; reflexivity end.
+  - unfold exec_rename in H. repeat wf_step; rw_fin.
+  - unfold exec_ping in H. repeat wf_step; rw_fin.
+Qed.
